@@ -2,7 +2,7 @@
 
 from __future__ import annotations
 
-from quansino.mc.canonical import Canonical
+from quansino.mc.canonical import Canonical, HamiltonianCanonical
 from quansino.mc.contexts import (
     Context,
     DeformationContext,
@@ -18,12 +18,15 @@ from quansino.mc.criteria import (
     BaseCriteria,
     CanonicalCriteria,
     GrandCanonicalCriteria,
+    HamiltonianCanonicalCriteria,
     IsobaricCriteria,
+    IsotensionCriteria,
 )
 from quansino.mc.driver import Driver
 from quansino.mc.fbmc import AdaptiveForceBias, ForceBias
 from quansino.mc.gcmc import GrandCanonical
 from quansino.mc.isobaric import Isobaric
+from quansino.mc.isotension import Isotension
 from quansino.registry import register_class
 
 __all__ = [
@@ -57,15 +60,19 @@ mc_registry = {
     "HamiltonianExchangeContext": HamiltonianExchangeContext,
     "BaseCriteria": BaseCriteria,
     "Canonical": Canonical,
+    "HamiltonianCanonical": HamiltonianCanonical,
     "CanonicalCriteria": CanonicalCriteria,
     "Context": Context,
     "DeformationContext": DeformationContext,
     "DisplacementContext": DisplacementContext,
     "ExchangeContext": ExchangeContext,
     "Isobaric": Isobaric,
+    "Isotension": Isotension,
     "GrandCanonical": GrandCanonical,
     "ForceBias": ForceBias,
     "IsobaricCriteria": IsobaricCriteria,
+    "IsotensionCriteria": IsotensionCriteria,
+    "HamiltonianCanonicalCriteria": HamiltonianCanonicalCriteria,
     "GrandCanonicalCriteria": GrandCanonicalCriteria,
     "MonteCarlo": MonteCarlo,
 }
